@@ -41,6 +41,9 @@ func Gen(t *rapid.T, p Profile) Spec {
 	}
 	if p.MaxChildren > 0 {
 		s.Children = rapid.IntRange(0, p.MaxChildren).Draw(t, "children")
+		if s.Children > 0 {
+			s.RespawnKids = rapid.Bool().Draw(t, "respawn_kids")
+		}
 	}
 	if p.Lifecycle {
 		s.InitPanics = rapid.SliceOfNDistinct(rapid.IntRange(1, 6), 0, 2, rapid.ID[int]).Draw(t, "init_panics")
